@@ -190,7 +190,6 @@ CHECKS["C13"] = dict(
          "(from_tk, for exported circuits and harness-assembled tket circuits with non-adjacent, reversed qubits). "
          "get_counts(backend) and eval(backend) run through a mock backend returning exact frequencies (numpy branch "
          "simulator, itself checked against TLC) and are compared with TLC's exact distribution.",
-    category="translation_validation",
     note="Trusted: TLC, projections of tket circuits and of imported circuits, float comparison. Three known findings.",
     ref="5/C13", technique="TLA+ exact simulator + TLC judging recorded translations (translation validation)")
 
